@@ -265,7 +265,7 @@ def runHolds (caseToks obsToks : List String) : String :=
   match parseCase caseToks with
   | some k =>
     match parseObs k.ops obsToks with
-    | some o => boolStr (holds (route k.h k.key) k.info k.c k.s k.p o)
+    | some o => boolStr (holdsAll (route k.h k.key) k.info k.c k.s k.p o)
     | none => "false"
   | none => "bad-case"
 
